@@ -177,6 +177,9 @@ pub struct MacroDefinition {
 /// The maximum nesting depth of macro invocations
 const MAX_MACRO_DEPTH: usize = 32;
 
+/// The maximum size of a bank (16 MiB; a bank is padded to its size in memory before it is written)
+const MAX_BANK_SIZE: i64 = 0x100_0000;
+
 pub struct CodegenContext {
     tree: Arc<ParseTree>,
     options: CodegenOptions,
@@ -636,7 +639,10 @@ impl CodegenContext {
 
                             let opts = BankOptions {
                                 name: name.clone(),
-                                size: extractor.try_get_i64(self, "size")?.map(|s| s as usize),
+                                size: match extractor.try_get_i64(self, "size")? {
+                                    Some(s) => Some(extractor.check_size("size", s, MAX_BANK_SIZE)?),
+                                    None => None,
+                                },
                                 fill: extractor.try_get_i64(self, "fill")?.map(|s| s as u8),
                                 create_segment: extractor
                                     .try_get_i64(self, "create-segment")?
